@@ -15,7 +15,7 @@ EXTRA = {"C03-A":["C10"], "C10-B":["C03"], "C15-A":["C02","C16","C01"], "C15-B":
          "C04-E":["C01","C02"], "C04-F":["C07"], "C06-E":["C16"], "C12-F":["C10"], "C15-E":["C20","C02"], "C16-E":["C02","C01"], "C17-F":["C01","C04"], "C18-F":["C15"], "C19-F":["C04"], "C20-F":["C10"], "C03-E":["C16","C01"], "C13-E":["C08","C05"], "C05-F":["C08"], "C09-E":["C11"], "C14-F":["C10"], "C02-E":["C01","C15"], "C02-F":["C01"]}
 only = sys.argv[1:]
 res = {}
-for d in sorted(glob.glob("/verif/seeded/C*-[A-G]")):
+for d in sorted(glob.glob("/verif/seeded/C*-[A-I]")):
     sid = os.path.basename(d)
     if only and sid not in only: continue
     if os.path.exists("/tmp/seed_matrix.json") and sid in json.load(open("/tmp/seed_matrix.json")): continue
